@@ -4,8 +4,11 @@
 
    Layer C interleaving model: any number of handles and of readers, one rule per atomic
    action of sharedPacketConn.Close (closeOnce won; cancel(); refs.Add(-1); underlying.Close()),
-   of newSharedPacketConn (refs.Add(1)) and of a blocked read (packet / own context cancelled /
-   underlying closed).
+   of newSharedPacketConn (refs.Add(1)), of SetReadDeadline (per handle: none / far in the future /
+   in the past) and of a blocked read (packet / own context cancelled / underlying closed / own
+   deadline already expired).  A read with a deadline parks with a context DERIVED FROM the handle's
+   context (readContext: context.WithDeadline(s.ctx, ...)), so the handle's Close fails it like any
+   other pending read; far deadlines are taken not to expire within a history.
 
    Scope (the property quantifies over read/write/close/abort/cancel among the handles of a
    connection): a further handle is only requested while the requester itself holds an open
@@ -27,8 +30,15 @@ Inductive hpc :=
 | HDecd (v : Z)              (* Add returned v; next: if v <= 0 { underlying.Close() } *)
 | HClosed.
 
-Inductive rres := ROk | RClosedPipe | REOF.
-Inductive rpc := RIdle | RWait (h : nat) | RRet (h : nat) (r : rres).
+Inductive rres := ROk | RClosedPipe | REOF | RTimeout.
+(* the read deadline configured on a handle (SetReadDeadline): none, far in the future (does not
+   expire within a history) or already in the past *)
+Inductive dlk := DNone | DFuture | DPast.
+Inductive rpc := RIdle
+  | RWait (h : nat)        (* parked in the underlying with the handle's context, or with a deadline
+                              context DERIVED FROM it (context.WithDeadline(s.ctx, future)) *)
+  | RWaitPast (h : nat)    (* the deadline context was already expired when the read started *)
+  | RRet (h : nat) (r : rres).
 
 Record state := {
   refs : Z;                        (* the shared atomic.Int32 *)
@@ -36,6 +46,7 @@ Record state := {
   cancelled : nat -> bool;         (* the handle's own context *)
   ucloses : nat;                   (* calls of underlying.Close() so far *)
   rds : nat -> rpc;                (* readers blocked in / returned from ReadFrom on a handle *)
+  rdl : nat -> dlk;                (* the handle's readDeadline *)
   (* ghost *)
   live : list nat;                 (* handles that still hold their reference *)
   pend : option nat;               (* the handle whose decrement reached zero and that has not closed the underlying yet *)
@@ -47,7 +58,7 @@ Definition remove_nat (i : nat) (l : list nat) : list nat := filter (fun k => ne
 
 Definition init : state :=
   {| refs := 0; hpcs := fun _ => HNone; cancelled := fun _ => false; ucloses := 0; rds := fun _ => RIdle;
-     live := []; pend := None; created := 0 |}.
+     rdl := fun _ => DNone; live := []; pend := None; created := 0 |}.
 
 Definition holds_ref (p : hpc) : bool := match p with HOpen | HClosing | HCancelled => true | _ => false end.
 Definition past_cancel (p : hpc) : bool := match p with HCancelled | HDecd _ | HClosed => true | _ => false end.
@@ -56,54 +67,70 @@ Definition settled (p : hpc) : bool := match p with HNone | HClosed => true | _ 
 Inductive label :=
 | LNew (h : nat) | LCloseBegin (h : nat) | LCancel (h : nat) | LDec (h : nat) (v : Z)
 | LUClose (h : nat) | LNoUClose (h : nat) | LCloseAgain (h : nat)
+| LSetDeadline (h : nat) (d : dlk)
 | LRead (k h : nat) | LReadRet (k h : nat) (r : rres) | LReadDone (k : nat).
 
 (* the handle a step belongs to (readers act on their own behalf) *)
 Definition actor (l : label) : option nat :=
   match l with
-  | LNew h | LCloseBegin h | LCancel h | LDec h _ | LUClose h | LNoUClose h | LCloseAgain h => Some h
+  | LNew h | LCloseBegin h | LCancel h | LDec h _ | LUClose h | LNoUClose h | LCloseAgain h
+  | LSetDeadline h _ => Some h
   | _ => None
   end.
 
 Definition set_h (s : state) (h : nat) (p : hpc) : state :=
   {| refs := refs s; hpcs := upd (hpcs s) h p; cancelled := cancelled s; ucloses := ucloses s; rds := rds s;
-     live := live s; pend := pend s; created := created s |}.
+     rdl := rdl s; live := live s; pend := pend s; created := created s |}.
 Definition set_r (s : state) (k : nat) (p : rpc) : state :=
   {| refs := refs s; hpcs := hpcs s; cancelled := cancelled s; ucloses := ucloses s; rds := upd (rds s) k p;
-     live := live s; pend := pend s; created := created s |}.
+     rdl := rdl s; live := live s; pend := pend s; created := created s |}.
 
 Inductive step : state -> label -> state -> Prop :=
 (* newSharedPacketConn: refs.Add(1).  h0 is the open handle the requester holds. *)
 | h_new s h h0 : hpcs s h = HNone -> (created s = O \/ hpcs s h0 = HOpen) ->
     step s (LNew h)
       {| refs := refs s + 1; hpcs := upd (hpcs s) h HOpen; cancelled := cancelled s; ucloses := ucloses s;
-         rds := rds s; live := h :: live s; pend := pend s; created := S (created s) |}
+         rds := rds s; rdl := rdl s; live := h :: live s; pend := pend s; created := S (created s) |}
 (* Close: s.closeOnce.Do(func() { fired = true; ... *)
 | h_close_begin s h : hpcs s h = HOpen -> step s (LCloseBegin h) (set_h s h HClosing)
 (* s.cancel() *)
 | h_cancel s h : hpcs s h = HClosing ->
     step s (LCancel h)
       {| refs := refs s; hpcs := upd (hpcs s) h HCancelled; cancelled := upd (cancelled s) h true;
-         ucloses := ucloses s; rds := rds s; live := live s; pend := pend s; created := created s |}
+         ucloses := ucloses s; rds := rds s; rdl := rdl s; live := live s; pend := pend s; created := created s |}
 (* s.refs.Add(-1) *)
 | h_dec s h : hpcs s h = HCancelled ->
     step s (LDec h (refs s - 1))
       {| refs := refs s - 1; hpcs := upd (hpcs s) h (HDecd (refs s - 1)); cancelled := cancelled s;
-         ucloses := ucloses s; rds := rds s; live := remove_nat h (live s);
+         ucloses := ucloses s; rds := rds s; rdl := rdl s; live := remove_nat h (live s);
          pend := (if (refs s - 1 <=? 0) then Some h else pend s); created := created s |}
 (* if ... <= 0 { err = s.underlying.Close() } *)
 | h_uclose s h v : hpcs s h = HDecd v -> v <= 0 ->
     step s (LUClose h)
       {| refs := refs s; hpcs := upd (hpcs s) h HClosed; cancelled := cancelled s; ucloses := S (ucloses s);
-         rds := rds s; live := live s; pend := None; created := created s |}
+         rds := rds s; rdl := rdl s; live := live s; pend := None; created := created s |}
 | h_no_uclose s h v : hpcs s h = HDecd v -> 0 < v -> step s (LNoUClose h) (set_h s h HClosed)
 (* a second Close() on the same handle: closeOnce does not fire, returns nil *)
 | h_close_again s h : hpcs s h <> HNone -> hpcs s h <> HOpen -> step s (LCloseAgain h) s
-(* ReadFrom on handle h: readContext fails at once when the own context is cancelled, else blocks *)
+(* SetReadDeadline: refused (io.ErrClosedPipe) once the own context is cancelled, else stored *)
+| h_set_deadline s h d : hpcs s h <> HNone -> cancelled s h = false ->
+    step s (LSetDeadline h d)
+      {| refs := refs s; hpcs := hpcs s; cancelled := cancelled s; ucloses := ucloses s; rds := rds s;
+         rdl := upd (rdl s) h d; live := live s; pend := pend s; created := created s |}
+(* ReadFrom on handle h: readContext fails at once when the own context is cancelled; otherwise the
+   read parks with the handle's context or a deadline context derived from it *)
 | r_call_closed s k h : rds s k = RIdle -> hpcs s h <> HNone -> cancelled s h = true ->
     step s (LRead k h) (set_r s k (RRet h RClosedPipe))
-| r_call s k h : rds s k = RIdle -> hpcs s h <> HNone -> cancelled s h = false ->
+| r_call s k h : rds s k = RIdle -> hpcs s h <> HNone -> cancelled s h = false -> rdl s h <> DPast ->
     step s (LRead k h) (set_r s k (RWait h))
+| r_call_past s k h : rds s k = RIdle -> hpcs s h <> HNone -> cancelled s h = false -> rdl s h = DPast ->
+    step s (LRead k h) (set_r s k (RWaitPast h))
+(* expired deadline: a queued datagram is still returned, else os.ErrDeadlineExceeded (io.EOF if the
+   underlying is closed) *)
+| r_data_past s k h : rds s k = RWaitPast h -> step s (LReadRet k h ROk) (set_r s k (RRet h ROk))
+| r_timeout s k h : rds s k = RWaitPast h -> step s (LReadRet k h RTimeout) (set_r s k (RRet h RTimeout))
+| r_eof_past s k h : rds s k = RWaitPast h -> (0 < ucloses s)%nat ->
+    step s (LReadRet k h REOF) (set_r s k (RRet h REOF))
 | r_data s k h : rds s k = RWait h -> step s (LReadRet k h ROk) (set_r s k (RRet h ROk))
 | r_cancel s k h : rds s k = RWait h -> cancelled s h = true ->      (* ctx.Done(): context.Canceled -> io.ErrClosedPipe *)
     step s (LReadRet k h RClosedPipe) (set_r s k (RRet h RClosedPipe))
@@ -131,19 +158,32 @@ Inductive sc_op :=
 | OPClose (hs : list nat)
 | OPCloseW (hs ws : list nat)  (* close hs concurrently while each handle of ws (not in hs) is written once *)
 | OWrite (h : nat)
+| ODeadline (h d : nat)      (* SetReadDeadline on h: 0 none, 1 far in the future, 2 in the past *)
 | ORStart (h : nat)          (* start a blocking ReadFrom on h in its own goroutine *)
 | ORPoll (h : nat)           (* has that read returned, and how *)
-| ODeliver.                  (* the mux queues one datagram on the underlying *)
+| ODeliver.                  (* the mux queues one datagram (numbered 1, 2, ...) on the underlying *)
 
 (* read slot of a handle *)
-Inductive rslot := RNone | RBlocked | RGot (r : rres)
+Inductive rslot := RNone | RBlocked
+  | RData (k : nat)          (* datagram number k was handed to the read *)
+  | RGot (r : rres)          (* a failure: RClosedPipe, REOF, RTimeout *)
   | REither.   (* a datagram was handed to the read and the handle was closed before the result was collected:
                   data, io.ErrClosedPipe or io.EOF *)
 Record fstate := { fclosed : list bool;           (* per created handle: Close was called *)
                    fcloses : nat;
                    fread : list rslot;
-                   fqueued : nat }.               (* datagrams queued on the underlying, not yet read *)
-Definition finit : fstate := {| fclosed := []; fcloses := 0; fread := []; fqueued := 0 |}.
+                   fqueued : list nat;            (* datagrams queued on the underlying, not yet read (FIFO) *)
+                   fdelivs : nat;                 (* datagrams delivered so far *)
+                   fdl : list nat }.              (* per handle: read deadline 0 / 1 / 2 *)
+Definition finit : fstate := {| fclosed := []; fcloses := 0; fread := []; fqueued := []; fdelivs := 0; fdl := [] |}.
+Definition set_fread (s : fstate) (rd : list rslot) : fstate :=
+  {| fclosed := fclosed s; fcloses := fcloses s; fread := rd; fqueued := fqueued s; fdelivs := fdelivs s; fdl := fdl s |}.
+Definition set_fqueued (s : fstate) (q : list nat) : fstate :=
+  {| fclosed := fclosed s; fcloses := fcloses s; fread := fread s; fqueued := q; fdelivs := fdelivs s; fdl := fdl s |}.
+Definition set_fdelivs (s : fstate) (n : nat) : fstate :=
+  {| fclosed := fclosed s; fcloses := fcloses s; fread := fread s; fqueued := fqueued s; fdelivs := n; fdl := fdl s |}.
+Definition set_fdl (s : fstate) (l : list nat) : fstate :=
+  {| fclosed := fclosed s; fcloses := fcloses s; fread := fread s; fqueued := fqueued s; fdelivs := fdelivs s; fdl := l |}.
 
 Fixpoint set_nth {A} (l : list A) (n : nat) (v : A) : list A :=
   match l, n with
@@ -155,19 +195,20 @@ Fixpoint set_nth {A} (l : list A) (n : nat) (v : A) : list A :=
 Definition all_closed (l : list bool) : bool := forallb (fun b => b) l.
 
 (* observation tokens are small numbers: see ocaml/sharedconn_main.ml *)
-Definition res_code (r : rres) : Z := match r with ROk => 1 | RClosedPipe => 2 | REOF => 3 end.
+Definition res_code (r : rres) : Z := match r with ROk => 1 | RClosedPipe => 2 | REOF => 3 | RTimeout => 5 end.
 
-(* close handle h (if it exists and is open): its blocked read returns ErrClosedPipe; the last one closes
-   the underlying. *)
+(* close handle h (if it exists and is open): its blocked read returns ErrClosedPipe (whatever read
+   deadline it was started with); the last one closes the underlying. *)
 Definition f_close (s : fstate) (h : nat) : fstate :=
   match nth_error (fclosed s) h with
   | Some false =>
     let cl := set_nth (fclosed s) h true in
     let rd := match nth_error (fread s) h with
               | Some RBlocked => set_nth (fread s) h (RGot RClosedPipe)
-              | Some (RGot ROk) => set_nth (fread s) h REither
+              | Some (RData _) => set_nth (fread s) h REither
               | _ => fread s end in
-    {| fclosed := cl; fcloses := (if all_closed cl then S (fcloses s) else fcloses s); fread := rd; fqueued := fqueued s |}
+    {| fclosed := cl; fcloses := (if all_closed cl then S (fcloses s) else fcloses s); fread := rd;
+       fqueued := fqueued s; fdelivs := fdelivs s; fdl := fdl s |}
   | _ => s
   end.
 
@@ -194,7 +235,8 @@ Definition sc_apply (s : fstate) (o : sc_op) : fstate * list Z :=
   match o with
   | ONew =>
     (* only meaningful while a handle is open or none was created (scope of the model) *)
-    ({| fclosed := fclosed s ++ [false]; fcloses := fcloses s; fread := fread s ++ [RNone]; fqueued := fqueued s |},
+    ({| fclosed := fclosed s ++ [false]; fcloses := fcloses s; fread := fread s ++ [RNone]; fqueued := fqueued s;
+        fdelivs := fdelivs s; fdl := fdl s ++ [O] |},
      [Z.of_nat (List.length (fclosed s)); Z.of_nat (fcloses s)])
   | OClose h => let s' := f_close s h in (s', [0; Z.of_nat (fcloses s')])
   | OPClose hs => let s' := fold_left f_close hs s in (s', [0; Z.of_nat (fcloses s')])
@@ -208,32 +250,44 @@ Definition sc_apply (s : fstate) (o : sc_op) : fstate * list Z :=
     | Some true => (s, [1])
     | None => (s, [9])
     end
+  | ODeadline h d =>
+    match nth_error (fclosed s) h with
+    | Some false => (set_fdl s (set_nth (fdl s) h d), [0])
+    | Some true => (s, [1])          (* io.ErrClosedPipe, nothing stored *)
+    | None => (s, [9])
+    end
   | ORStart h =>
     match nth_error (fclosed s) h, nth_error (fread s) h with
-    | Some true, Some RNone => ({| fclosed := fclosed s; fcloses := fcloses s; fread := set_nth (fread s) h (RGot RClosedPipe); fqueued := fqueued s |}, [0])
+    | Some true, Some RNone => (set_fread s (set_nth (fread s) h (RGot RClosedPipe)), [0])
     | Some false, Some RNone =>
       if Nat.ltb 0 (fcloses s) then   (* out of scope: handle on a closed underlying reads io.EOF *)
-        ({| fclosed := fclosed s; fcloses := fcloses s; fread := set_nth (fread s) h (RGot REOF); fqueued := fqueued s |}, [0])
+        (set_fread s (set_nth (fread s) h (RGot REOF)), [0])
       else
       match fqueued s with
-      | S q => ({| fclosed := fclosed s; fcloses := fcloses s; fread := set_nth (fread s) h (RGot ROk); fqueued := q |}, [0])
-      | O => ({| fclosed := fclosed s; fcloses := fcloses s; fread := set_nth (fread s) h RBlocked; fqueued := O |}, [0])
+      | k :: q => (set_fqueued (set_fread s (set_nth (fread s) h (RData k))) q, [0])
+      | [] =>
+        match nth_error (fdl s) h with
+        | Some 2%nat => (set_fread s (set_nth (fread s) h (RGot RTimeout)), [0])   (* deadline in the past *)
+        | _ => (set_fread s (set_nth (fread s) h RBlocked), [0])                   (* none, or far in the future *)
+        end
       end
     | _, _ => (s, [9])
     end
   | ORPoll h =>
     match nth_error (fread s) h with
     | Some RBlocked => (s, [0])
-    | Some (RGot r) => ({| fclosed := fclosed s; fcloses := fcloses s; fread := set_nth (fread s) h RNone; fqueued := fqueued s |}, [res_code r])
-    | Some REither => ({| fclosed := fclosed s; fcloses := fcloses s; fread := set_nth (fread s) h RNone; fqueued := fqueued s |}, [7])
+    | Some (RData k) => (set_fread s (set_nth (fread s) h RNone), [1; Z.of_nat k])
+    | Some (RGot r) => (set_fread s (set_nth (fread s) h RNone), [res_code r])
+    | Some REither => (set_fread s (set_nth (fread s) h RNone), [7])
     | _ => (s, [9])
     end
   | ODeliver =>
     if Nat.leb 2 (count_blocked (fread s)) then (s, [9]) else
     if (match fclosed s with [] => false | _ => all_closed (fclosed s) end) then (s, [0]) else
+    let k := S (fdelivs s) in
     match first_blocked (fread s) 0 with
-    | Some h => ({| fclosed := fclosed s; fcloses := fcloses s; fread := set_nth (fread s) h (RGot ROk); fqueued := fqueued s |}, [0])
-    | None => ({| fclosed := fclosed s; fcloses := fcloses s; fread := fread s; fqueued := S (fqueued s) |}, [0])
+    | Some h => (set_fdelivs (set_fread s (set_nth (fread s) h (RData k))) k, [0])
+    | None => (set_fdelivs (set_fqueued s (fqueued s ++ [k])) k, [0])
     end
   end.
 
@@ -244,27 +298,51 @@ Fixpoint sc_run (s : fstate) (ops : list sc_op) : list (list Z) :=
   end.
 
 (* ---- the monitor: the property on the observations ----------------------------------------
-   Its own bookkeeping: on which handles Close has been called, whether a handle's current read
-   was started after that, and whether the history left the scope of the property (a handle
-   requested after every existing one was closed). *)
-Record mstate := { mcl : list bool; mlate : list bool; mscope : bool }.
-Definition minit : mstate := {| mcl := []; mlate := []; mscope := true |}.
+   Its own bookkeeping: on which handles Close has been called and how many datagrams had been
+   delivered by then, whether a handle's current read was started after that, the handle's read
+   deadline and whether its current read was started with the deadline in the past, and whether the
+   history left the scope of the property (a handle requested after every existing one was closed). *)
+Record mstate := { mcl : list bool; mlate : list bool; mscope : bool;
+                   mdl : list nat; mto : list bool; mdelivs : nat; mclosedat : list nat }.
+Definition minit : mstate :=
+  {| mcl := []; mlate := []; mscope := true; mdl := []; mto := []; mdelivs := 0; mclosedat := [] |}.
 
-Definition mark_one (c : list bool) (h : nat) : list bool :=
-  match nth_error c h with Some _ => set_nth c h true | None => c end.
+(* Close on h: remember how many datagrams had been delivered when it was closed first *)
+Definition mark_close (m : mstate) (h : nat) : mstate :=
+  match nth_error (mcl m) h with
+  | Some false => {| mcl := set_nth (mcl m) h true; mlate := mlate m; mscope := mscope m; mdl := mdl m; mto := mto m;
+                     mdelivs := mdelivs m; mclosedat := set_nth (mclosedat m) h (mdelivs m) |}
+  | _ => m
+  end.
 
 Definition mark (m : mstate) (o : sc_op) (obs : list Z) : mstate :=
   match o with
   | ONew => {| mcl := mcl m ++ [false]; mlate := mlate m ++ [false];
-               mscope := mscope m && (match mcl m with [] => true | _ => negb (all_closed (mcl m)) end) |}
-  | OClose h => {| mcl := mark_one (mcl m) h; mlate := mlate m; mscope := mscope m |}
-  | OPClose hs | OPCloseW hs _ => {| mcl := fold_left mark_one hs (mcl m); mlate := mlate m; mscope := mscope m |}
+               mscope := mscope m && (match mcl m with [] => true | _ => negb (all_closed (mcl m)) end);
+               mdl := mdl m ++ [O]; mto := mto m ++ [false]; mdelivs := mdelivs m; mclosedat := mclosedat m ++ [O] |}
+  | OClose h => mark_close m h
+  | OPClose hs | OPCloseW hs _ => fold_left mark_close hs m
+  | ODeadline h d =>
+    match obs with
+    | [0] => {| mcl := mcl m; mlate := mlate m; mscope := mscope m; mdl := set_nth (mdl m) h d; mto := mto m;
+                mdelivs := mdelivs m; mclosedat := mclosedat m |}
+    | _ => m
+    end
   | ORStart h =>
     match obs with
     | [0] => {| mcl := mcl m;
                 mlate := (match nth_error (mcl m) h with Some b => set_nth (mlate m) h b | None => mlate m end);
-                mscope := mscope m |}
+                mscope := mscope m; mdl := mdl m;
+                mto := set_nth (mto m) h (match nth_error (mdl m) h with Some 2%nat => true | _ => false end);
+                mdelivs := mdelivs m; mclosedat := mclosedat m |}
     | _ => m           (* refused: the handle already has a read in progress *)
+    end
+  | ODeliver =>
+    match obs with
+    | [0] => if (match mcl m with [] => false | _ => all_closed (mcl m) end) then m else
+             {| mcl := mcl m; mlate := mlate m; mscope := mscope m; mdl := mdl m; mto := mto m;
+                mdelivs := S (mdelivs m); mclosedat := mclosedat m |}
+    | _ => m
     end
   | _ => m
   end.
@@ -274,6 +352,8 @@ Definition closes_ok (cl : list bool) (closes : Z) : bool :=
   | [] => closes =? 0
   | _ => if all_closed cl then closes =? 1 else closes =? 0
   end.
+
+Definition is_true (o : option bool) : bool := match o with Some true => true | _ => false end.
 
 (* checks for one operation, given the bookkeeping BEFORE it ([m]) and AFTER it ([m']) *)
 Definition sc_op_checks (m m' : mstate) (o : sc_op) (obs : list Z) : checks :=
@@ -291,11 +371,29 @@ Definition sc_op_checks (m m' : mstate) (o : sc_op) (obs : list Z) : checks :=
     | Some true => [("closed_handle_write_fails"%string, r =? 1)]
     | None => []
     end
-  | ORPoll h, [r] =>
+  | ORPoll h, r :: rest =>
+    let past := is_true (nth_error (mto m) h) in
     match nth_error (mcl m) h, nth_error (mlate m) h with
-    | Some false, _ => if mscope m then [("sibling_read_undisturbed"%string, (r =? 0) || (r =? 1) || (r =? 9))] else []
+    | Some false, _ =>
+      (* an open handle's read is parked or returns data; with the deadline already in the past it
+         returns data or a timeout, and does not stay parked *)
+      if mscope m then
+        [("sibling_read_undisturbed"%string,
+          if past then (r =? 1) || (r =? 5) || (r =? 9) else (r =? 0) || (r =? 1) || (r =? 9))]
+      else []
     | Some true, Some true => [("closed_handle_read_fails"%string, (r =? 2) || (r =? 9))]
-    | Some true, _ => [("closed_handle_read_fails"%string, (r =? 2) || (r =? 3) || (r =? 1) || (r =? 9) || (r =? 7))]
+    | Some true, _ =>
+      (* a read pending when its handle was closed has failed (whatever deadline it carries), or had
+         received a datagram delivered BEFORE the Close *)
+      [("closed_handle_read_fails"%string,
+        (r =? 2) || (r =? 3) || (r =? 1) || (r =? 9) || (r =? 7) || (past && (r =? 5)));
+       ("closed_handle_read_takes_no_later_data"%string,
+        if r =? 1 then
+          match rest, nth_error (mclosedat m) h with
+          | k :: _, Some n => k <=? Z.of_nat n
+          | _, _ => false
+          end
+        else true)]
     | None, _ => []
     end
   | ONew, _ | OClose _, _ | OPClose _, _ | OPCloseW _ _, _ | OWrite _, _ | ORPoll _, _ => [("malformed_observation"%string, false)]
